@@ -43,6 +43,20 @@ metamorphic "constants equal bound variables": `f2` is `f1` with numeric constan
 variables that `<keys>` binds to the same values; both are compiled and evaluated (here by the
 model, in the harness by the real code) and must agree bit for bit; answer `ok <bits>`.
 
+  khist <opt> <template hex> <elems 1> <keys 1> <elems 2> <keys 2> …
+
+ONE compiled `{! …}` stage on several contexts in order (and, in the harness, the same contexts again from
+8 goroutines at once through the same stage).  The model's stage has no state – that this is what the
+pooled wrapper objects of `kfMath` amount to is `kfmath_history_independent` /
+`kfmath_concurrent_independent` – so every value is computed from its context alone:
+`ok errs=… vals=v1,v2,…`.
+
+  docex <formula hex> <expected hex> <keys>
+
+an example of docs/usage/math.md: `ok <expected hex>` if the model's `{! formula}` under the documented
+binding prints the documented value (`docs_examples_hold` proves it does for the examples of the tree the
+proofs were checked against).
+
 Plus the shared `expr` op (`{! …}` inside templates), here with `{! …}` bound to the IEEE instance.
 
 Every value is computed with the software binary64 instance `IEEE.arithT` (`Model/C19F64.lean`, the
@@ -145,6 +159,31 @@ def gramAns (fb : Bytes) : String :=
 def registry : Rare.Expr.Registry :=
   Rare.Expr.mkRegistry (("!", IEEE.kfMath) :: Rare.Expr.stdTable) Gen.stdFunctionNames
 
+/-- `<elems 1> <keys 1> <elems 2> <keys 2> …` -/
+def ctxPairs : List String → Option (List Rare.Expr.Ctx)
+  | [] => some []
+  | el :: ks :: rest =>
+    match decHexList el, decHexList ks, ctxPairs rest with
+    | some e, some k, some r => some (Rare.Drv.Expr.mkCtx e k :: r)
+    | _, _, _ => none
+  | _ => none
+
+/-- one compiled expression, every context on its own (the model's stages have no state) -/
+def histAns (reg : Rare.Expr.Registry) (opt : Bool) (t : List Char) (ctxs : List Rare.Expr.Ctx) : String :=
+  match Rare.Expr.compile reg opt t with
+  | .error m => Rare.Drv.Expr.panicAns m
+  | .ok (stages, errs) =>
+    match Rare.Drv.Expr.unmodelledTag errs with
+    | some n => "unmodelled " ++ n
+    | none =>
+      let rec go : List Rare.Expr.Ctx → List String → String
+        | [], acc => s!"ok errs={Rare.Drv.Expr.errsStr errs} vals={",".intercalate acc.reverse}"
+        | c :: cs, acc =>
+          match (Rare.Expr.buildKey stages).run c with
+          | .error m => Rare.Drv.Expr.panicAns m
+          | .ok v => go cs (Hex.enc v :: acc)
+      go ctxs []
+
 def handle (args : List String) : String :=
   match args with
   | ["gram", f] =>
@@ -194,6 +233,23 @@ def handle (args : List String) : String :=
       | .ok toks => "ok " ++ ",".intercalate (toks.map fun t => tokKind t.t ++ ":" ++ Hex.enc t.val)
       | .error e => errStr e
     | none => "bad-args"
+  | "khist" :: o :: t :: rest =>
+    match Hex.dec t, ctxPairs rest with
+    | some tb, some ctxs =>
+      match Rare.Drv.Expr.decodeTemplate tb with
+      | some tc => xcheck (histAns registry (o == "1") tc ctxs) (histAns Rare.Drv.Expr.registry (o == "1") tc ctxs)
+      | none => "bad-args"
+    | _, _ => "bad-args"
+  | ["docex", f, want, ks] =>
+    match Hex.dec f, Hex.dec want, decHexList ks with
+    | some fb, some wb, some keys =>
+      match IEEE.kfMath [Rare.Expr.Stage.lit fb] with
+      | .ok ⟨some st, none⟩ =>
+        match st.run (Rare.Drv.Expr.mkCtx [] keys) with
+        | .ok v => if v == wb then "ok " ++ Hex.enc v else "doc-example-differs model=" ++ Hex.enc v
+        | .error m => Rare.Drv.Expr.panicAns m
+      | _ => "doc-example-does-not-compile"
+    | _, _, _ => "bad-args"
   | ["expr", o, t, el, ks] =>
     match Hex.dec t, decHexList el, decHexList ks with
     | some tb, some elems, some keys =>
